@@ -772,9 +772,11 @@ struct Driver {
           if (!alive[k]) continue;
           std::vector<int> now = contents(v(k));
           if (rvOwn && k == a && now.size() == ref[k].size()) ref[k] = now;  // aliased rvalue: only memory safety and size are checked
-          if (now != ref[k] || v(k).empty() != ref[k].empty())
+          if (now != ref[k] || v(k).empty() != ref[k].empty()) {
             fail(line.find(" o") != std::string::npos ? "C10" : "C01",
                  "contents differ from std::vector: got [" + joinInts(now) + "] expected [" + joinInts(ref[k]) + "] (container " + std::to_string(k) + ")");
+            ref[k] = now;  // reported once: later steps are judged from what the container really holds
+          }
         }
         // C08: sizes beyond the limit must have thrown
         if (alive[a] && static_cast<long>(ref[a].size()) > limit) fail("C08", "size exceeds the limit without an exception");
